@@ -7,6 +7,7 @@ import (
 	"net"
 	"sort"
 	"strconv"
+	"sync"
 	"time"
 
 	"google.golang.org/grpc"
@@ -24,9 +25,13 @@ type RawNode struct {
 	// Only assigned at creation.
 	id     uint32
 	addr   string
-	conn   *grpc.ClientConn
 	cancel func()
 	mgr    *RawManager
+
+	// conn is replaced when the node is dialed again; connMu protects conn and closed.
+	connMu sync.Mutex
+	conn   *grpc.ClientConn
+	closed bool
 
 	// the default channel
 	channel *channel
@@ -73,6 +78,11 @@ func (n *RawNode) connect(mgr *RawManager) error {
 
 // dial the node and close the current connection.
 func (n *RawNode) dial() error {
+	n.connMu.Lock()
+	defer n.connMu.Unlock()
+	if n.closed {
+		return fmt.Errorf("node closed")
+	}
 	if n.conn != nil {
 		// close the current connection before dialing again.
 		n.conn.Close()
@@ -82,6 +92,13 @@ func (n *RawNode) dial() error {
 	defer cancel()
 	n.conn, err = grpc.DialContext(ctx, n.addr, n.mgr.opts.grpcDialOpts...)
 	return err
+}
+
+// getConn returns the node's current connection.
+func (n *RawNode) getConn() *grpc.ClientConn {
+	n.connMu.Lock()
+	defer n.connMu.Unlock()
+	return n.conn
 }
 
 // newContext returns a new context for this node's channel.
@@ -108,6 +125,9 @@ func (n *RawNode) close() error {
 		// cancel is nil if the manager was created with WithNoConnect
 		n.cancel()
 	}
+	n.connMu.Lock()
+	defer n.connMu.Unlock()
+	n.closed = true
 	if n.conn == nil {
 		return nil
 	}
